@@ -1238,7 +1238,13 @@ def c08_one(res, g, games):
     try:
         out = impl_teams(g)
     except Exception as e:  # noqa: BLE001
-        res.fail("property", "C08: rate raised %s: %s" % (type(e).__name__, e), inp)
+        t_eff = g["tau"] if g.get("tauopt") is None else g["tauopt"]
+        if isinstance(e, ZeroDivisionError) and t_eff > 0 and t_eff * t_eff == 0.0 and any(all(s_ * s_ == 0.0 for (_m, s_) in t) for t in g["teams"]):
+            # known finding K2, verified: the tau in force is positive but its square underflows, and a whole team has sigma 0
+            res.fail("property", "C08 [tau-squared-underflow]: rate raised ZeroDivisionError: a team whose members all have sigma 0.0 under a positive tau %r "
+                     "whose square underflows to 0.0" % t_eff, inp)
+        else:
+            res.fail("property", "C08: rate raised %s: %s" % (type(e).__name__, e), inp)
         out = None
     if out is not None and not all(math.isfinite(x) for t in out for p in t for x in p):
         res.fail("property", "C08: rate returned a non-finite number", inp)
@@ -1259,6 +1265,9 @@ def c08_item(res, item):
     res.case(g)
     games = []
     c08_one(res, g, games)
+    t_eff = g["tau"] if g.get("tauopt") is None else g["tauopt"]
+    if t_eff > 0 and t_eff * t_eff == 0.0:
+        return          # known finding K2: the implementation raises where the Float model yields NaN; nothing further to compare
     corr_games(res, games, "correspondence", "C08 outcome class")
 
 
